@@ -108,6 +108,7 @@ fn verif_entry() {
         "c19" => crate::event::verif_event::c19::run(replay),
         "c06tm" => crate::event::verif_event::c06::run(replay),
         "c15live" => crate::event::verif_event::c15::run(replay),
+        "c14api" => crate::event::verif_event::c14api::run(replay),
         "c17" => c17::run(replay),
         "c13" => crate::rpki::verif_rpki::run_c13(replay),
         "" => {
